@@ -585,3 +585,38 @@ Proof.
   - apply Forall_forall. intros k I. apply allowed_use_sound. rewrite forallb_forall in U. apply U. exact I.
   - apply Forall_forall. intros d I. apply derive_allowed_sound. rewrite forallb_forall in D. apply D. exact I.
 Qed.
+
+(* ---- where the secret DOES go: every outgoing request carries exactly the configured key and headers,
+        to the configured endpoint, and nothing else of the configuration ---------------------------------- *)
+Definition sent_ok (c : orcfg) (s : sent) : Prop :=
+  s_url s = oc_endpoint c /\ s_auth s = oc_key c /\ s_headers s = oc_headers c.
+
+Lemma sr_sent_ok sc c b : Forall (sent_ok c) (sr_sent sc c b).
+Proof.
+  unfold sr_sent. destruct (e_validate sc b); [|constructor].
+  constructor; [|constructor]. unfold sent_ok, mk_sent. cbn [s_url s_auth s_headers]. repeat split.
+Qed.
+
+Lemma agent_loop_sent_ok fuel dump sc c prompt : forall st,
+  Forall (sent_ok c) (lo_sent (agent_loop fuel dump sc c prompt st)).
+Proof.
+  induction fuel as [|f IH]; intros st; [constructor|].
+  cbn [agent_loop].
+  destruct (MAX_TOOL_CALLS <=? ls_count st); [constructor|].
+  destruct (choose_payload c prompt st) as [[b kind]|]; [|constructor].
+  pose proof (sr_sent_ok sc c b) as S0.
+  destruct (sr_result sc c (ls_idx st) b) as [reason | rid calls]; [exact S0|].
+  destruct calls as [|c0 calls]; [exact S0|].
+  destruct (over rid (ls_prev st)) as [p|]; destruct (oc_stateless c);
+    try exact S0;
+    match goal with |- context [to_exceeded ?t] => destruct (to_exceeded t) end;
+    try exact S0; cbn [lo_sent]; apply Forall_app; split; try exact S0; apply IH.
+Qed.
+
+Theorem secret_attached_to_requests_only : forall fuel sc (thread : bool) w prompt initial c,
+  (if thread then thread_cfg w else session_cfg w) = Some c ->
+  Forall (sent_ok c) (out_sent (run fuel sc thread w prompt initial)).
+Proof.
+  intros fuel sc thread w prompt initial c H. unfold run. rewrite H. cbn [run_cfg out_sent].
+  apply agent_loop_sent_ok.
+Qed.
